@@ -47,8 +47,9 @@ def run(ctx):
         cjb = {"op": "reciprocity", "reflections": nrefl, "numel": numel, "frequency": freq, "width": width, "use_directivity": use_dir, "use_attenuation": use_att,
                "probe": s["probe"].locations.coords.tolist(), "scatterers": s["scat_pts"].tolist(), "H": s["H"],
                "couplant": [s["couplant"].longitudinal_vel, s["couplant"].density], "block": [block.longitudinal_vel, block.transverse_vel, block.density]}
+        ctx.count(f"ingredients:dir={int(use_dir)},att={int(use_att)}")
         for sname, sc in scatterers.items():
-            a = 0.0 if sname != "matrices" else 0.0
+            a = 0.0
             for vname in pick:
                 rname = ut.reciprocal_viewname(vname)
                 A = model.model_amplitudes_factory(tx, rx, views[vname], rw, sc, scat_angle=a)[...]
@@ -64,6 +65,26 @@ def run(ctx):
                 if worst > 1e-9:
                     ctx.violate(f"view {vname} (i->j) and its reciprocal {rname} (j->i) differ by {worst:.3e} (relative) with scatterer '{sname}'",
                                 {**cjb, "view": vname, "scatterer": sname}, {"kind": "reciprocity", "scatterer": sname})
+        # ---- every other on/off combination of directivity and attenuation on the same set-up (side-drilled hole, views whose
+        # two ends differ in mode first: the scattering normalisation sqrt(lambda_mode) only matters there)
+        mixed = [n_ for n_ in names if n_.split("-")[0][-1] != n_.split("-")[1][0]]
+        same = [n_ for n_ in names if n_ not in mixed]
+        sub = [mixed[i] for i in rng.permutation(len(mixed))[:8]] + [same[i] for i in rng.permutation(len(same))[:3]]
+        for ud, ua in [(True, True), (True, False), (False, True), (False, False)]:
+            if (ud, ua) == (use_dir, use_att):
+                continue
+            rw2 = bim.ray_weights_for_views(views, freq, probe_element_width=width, use_directivity=ud, use_attenuation=ua)
+            ctx.count(f"ingredients:dir={int(ud)},att={int(ua)}")
+            for vname in sub:
+                rname = ut.reciprocal_viewname(vname)
+                A = model.model_amplitudes_factory(tx, rx, views[vname], rw2, scatterers["sdh"])[...]
+                B = model.model_amplitudes_factory(tx, rx, views[rname], rw2, scatterers["sdh"])[...]
+                ctx.case(("rec2", rep, ud, ua, vname), True)
+                scale = np.abs(A).max() + 1e-300
+                worst = max(np.abs(A[:, i * numel + j] - B[:, j * numel + i]).max() / scale for i in range(numel) for j in range(numel))
+                if worst > 1e-9:
+                    ctx.violate(f"view {vname} (i->j) and its reciprocal {rname} (j->i) differ by {worst:.3e} (relative) with use_directivity={ud}, use_attenuation={ua}",
+                                {**cjb, "view": vname, "scatterer": "sdh", "use_directivity": ud, "use_attenuation": ua}, {"kind": "reciprocity", "scatterer": "sdh"})
         # ---- structure: Q / Q' is geometry independent and tied to the last mode
         ratios = {}
         for path in {v.tx_path for v in views.values()}:
